@@ -70,6 +70,8 @@ def bit_at(x, y):
     # fixed 1-bit pattern whose rows are pairwise distinct for all three sizes and whose columns
     # are pairwise distinct for 4x3 and 5x4 (checked in selftest)
     table = [0b101100111, 0b011010010, 0b110001101, 0b000111010]
+    if x > 8:      # wide-row seeds: continue with a fixed aperiodic pattern
+        return ((x * 5 + y * 3 + (x * x) // 7) >> 1) & 1
     return (table[y] >> (8 - x)) & 1
 
 
@@ -392,6 +394,7 @@ BMP_VARIANTS = [
 ]
 # variants with a full 256-entry palette are > 1 KB: one size only, flagged big
 BMP_BIG = [dict(kind='pal8'), dict(kind='pal8', header='os2'), dict(kind='rle8')]
+BMP_WIDE = [dict(kind='rgb555'), dict(kind='bf565'), dict(kind='pal1'), dict(kind='pal4'), dict(kind='rgb24')]
 
 
 # ----------------------------------------------------------------------------- PNM
@@ -541,6 +544,10 @@ def all_seeds():
             seeds.append(make_bmp(v, w, h))
     for v in BMP_BIG:
         seeds.append(make_bmp(v, 5, 4))
+    # wide rows: widths above 16 are where a wrong row pitch for 15/16-bit (and 1/4-bit) pixels stops being hidden by
+    # the 4-byte row rounding
+    for v in BMP_WIDE:
+        seeds.append(make_bmp(v, 19, 2))
     for (w, h) in SIZES:
         seeds.append(make_pnm(1, w, h))
         seeds.append(make_pnm(2, w, h))
